@@ -91,6 +91,10 @@ ApplyCall(a, c) ==
                  !.clock = @ + 1]
   ELSE IF IsRevUpdate(c) /\ Det(c) = "renumber" THEN
        [a EXCEPT !.revs = [k \in 1..Len(@) |-> IF @[k].name = Name(c) THEN [@[k] EXCEPT !.num = Ints(c)[1]] ELSE @[k]]]
+  ELSE IF IsRevPatch(c) /\ Det(c) = "adopt" THEN
+       [a EXCEPT !.revs = [k \in 1..Len(@) |-> IF @[k].name = Name(c) THEN [@[k] EXCEPT !.owner = "self"] ELSE @[k]]]
+  ELSE IF IsRevUpdate(c) /\ Det(c) = "labels" THEN
+       [a EXCEPT !.revs = [k \in 1..Len(@) |-> IF @[k].name = Name(c) THEN [@[k] EXCEPT !.sel = TRUE] ELSE @[k]]]
   ELSE IF IsRevDelete(c) THEN
        [a EXCEPT !.revs = SelectSeq(@, LAMBDA x : x.name # Name(c))]
   ELSE a
@@ -99,12 +103,18 @@ RECURSIVE ApplyCalls(_, _, _)
 ApplyCalls(a, calls, k) == IF k > Len(calls) THEN a ELSE ApplyCalls(ApplyCall(a, calls[k]), calls, k + 1)
 
 \* pod and revision populations of initial / scrambled states
-InitRev(t, n) == [name |-> t \o ".0", tmpl |-> t, num |-> n, created |-> n, owner |-> "self", marker |-> FALSE, sel |-> TRUE, rank |-> n]
+Migrating == InitMode = "migration"
+\* ordinarily revisions are the set's own; after helper.Upgrade they still belong to the built-in set (until the garbage
+\* collector orphans them), carry the upgrade marker and no longer the selector labels
+InitRev(t, n) == [name |-> t \o ".0", tmpl |-> t, num |-> n, created |-> n, owner |-> IF Migrating THEN "other" ELSE "self",
+                  marker |-> Migrating, sel |-> ~Migrating, rank |-> n]
 InitRevs     == {<<>>} \cup {<<InitRev(t, 1)>> : t \in Tmpls}
                 \cup {<<InitRev(q[1], 1), InitRev(q[2], 2)>> : q \in {z \in Tmpls \X Tmpls : z[1] # z[2]}}
 RevNames(rs) == {rs[k].name : k \in 1..Len(rs)}
-PodStates(rs) == {Absent} \cup [present : {TRUE}, phase : {"Pending", "Running", "Failed"}, ready : BOOLEAN, term : BOOLEAN,
-                                rev : RevNames(rs), owner : {"self", "none"}, uid : {0}]
+PodStates(rs) == IF Migrating    \* the running pods of the built-in set
+                 THEN {Absent} \cup [present : {TRUE}, phase : {"Running"}, ready : BOOLEAN, term : {FALSE}, rev : RevNames(rs), owner : {"other"}, uid : {0}]
+                 ELSE {Absent} \cup [present : {TRUE}, phase : {"Pending", "Running", "Failed"}, ready : BOOLEAN, term : BOOLEAN,
+                                     rev : RevNames(rs), owner : {"self", "none"}, uid : {0}]
 GoodPod(p) == IF p.present THEN (p.ready => p.phase = "Running") /\ (p.phase = "Pending" => ~p.term) ELSE TRUE
 
 ---------------------------------------------------------------------------------------
@@ -141,6 +151,9 @@ Guard(s, a) ==
     [] a.act = "Pause"             -> ~api_.set.deleting /\ ~api_.set.paused
     [] a.act = "Unpause"           -> api_.set.paused
     [] a.act = "DeletePodByHand"   -> pod.present /\ ~pod.term
+    \* the garbage collector orphans the dependents of the deleted built-in set, one object at a time
+    [] a.act = "GCOrphanPod"       -> pod.present /\ pod.owner = "other"
+    [] a.act = "GCOrphanRev"       -> a.k \in 1..Len(api_.revs) /\ api_.revs[a.k].owner = "other"
     [] OTHER                       -> FALSE
 
 Effect(s, a) ==
@@ -165,6 +178,8 @@ Effect(s, a) ==
     [] a.act = "Pause"             -> [s EXCEPT !.api.set = Bump([@ EXCEPT !.paused = TRUE], FALSE)]
     [] a.act = "Unpause"           -> [s EXCEPT !.api.set = Bump([@ EXCEPT !.paused = FALSE], FALSE)]
     [] a.act = "DeletePodByHand"   -> [s EXCEPT !.api.pods[a.o] = DeleteOf(@)]
+    [] a.act = "GCOrphanPod"       -> [s EXCEPT !.api.pods[a.o].owner = "none"]
+    [] a.act = "GCOrphanRev"       -> [s EXCEPT !.api.revs[a.k].owner = "none"]
     [] a.act = "Scramble"          -> LET q == a.pod
                                           p == IF q.present THEN [present |-> TRUE, phase |-> q.phase, ready |-> q.ready, term |-> q.term,
                                                                   rev |-> q.rev, owner |-> q.owner, uid |-> api_.clock]
@@ -213,6 +228,9 @@ User       == \/ \E r \in 0..MaxRep : Do([act |-> "SetReplicas", r |-> r])
               \/ \E p \in 0..(MaxOrd + 1) : Do([act |-> "SetPartition", p |-> p])
               \/ Do([act |-> "Pause"]) \/ Unpause
               \/ \E o \in Ords : Do([act |-> "DeletePodByHand", o |-> o])
+GCOrphanPod(o) == Do([act |-> "GCOrphanPod", o |-> o])
+GCOrphanRev(k) == Do([act |-> "GCOrphanRev", k |-> k])
+GC         == (\E o \in Ords : GCOrphanPod(o)) \/ (\E k \in 1..Len(api.revs) : GCOrphanRev(k))
 
 \* "from any cluster state" (C02): before the system runs, each pod slot is put into an arbitrary state, in the API
 \* and in the cache alike (cache lag then arises from the system's own steps)
@@ -242,6 +260,12 @@ GoodSet(s) == (s.strat = "OnDelete" => s.part = 0) /\ Desired(s.replicas, s.slot
 \* InitMode "empty": every spec over an empty cluster is an initial state.
 \* InitMode "any":   one blank initial state; the first step (Setup) picks the spec and the revision history, the next
 \*                   MaxOrd+1 steps (Scramble) the pods - so that TLC's simulator does not have to enumerate all of them up front.
+\* a set just converted from a built-in one: its template is the one of the newest built-in revision, its status is the
+\* built-in set's (or still empty, in the window before the helper has written it)
+MigratedSets(rs) == {s \in InitSets(rs) : /\ rs # <<>> /\ s.tmpl = rs[Len(rs)].tmpl
+                                         /\ ((s.status.curRev = rs[1].name /\ s.status.updRev = rs[Len(rs)].name)
+                                              \/ (s.status.curRev = "" /\ s.status.updRev = ""))}
+
 Init == /\ IF InitMode = "empty"
            THEN \E s \in InitSets(<<>>) : GoodSet(s) /\ api = [set |-> s, pods |-> [o \in Ords |-> Absent], revs |-> <<>>, clock |-> 10]
                                                     /\ cache = [set |-> s, pods |-> [o \in Ords |-> Absent]]
@@ -252,13 +276,13 @@ Init == /\ IF InitMode = "empty"
         /\ lvl = IF InitMode = "empty" THEN MaxOrd + 1 ELSE -1
 
 Setup == /\ lvl = -1
-         /\ \E rs \in InitRevs : \E s \in InitSets(rs) :
+         /\ \E rs \in InitRevs : \E s \in (IF Migrating THEN MigratedSets(rs) ELSE InitSets(rs)) :
                /\ GoodSet(s)
                /\ api' = [api EXCEPT !.set = s, !.revs = rs] /\ cache' = [cache EXCEPT !.set = s]
                /\ last' = [act |-> "Setup", set |-> s, revs |-> rs]
          /\ lvl' = 0 /\ UNCHANGED budget
 
-Next == \/ Controller \/ Informers \/ Kubelet \/ Trouble \/ User
+Next == \/ Controller \/ Informers \/ Kubelet \/ Trouble \/ User \/ GC
         \/ Setup \/ \E o \in Ords : Scramble(o)
 
 ---------------------------------------------------------------------------------------
@@ -347,11 +371,27 @@ NoCollateralDelete ==
 \* C02: convergence, under the premise that the user stops, faults stop, caches catch up and the kubelet makes progress
 Fairness == /\ WF_vars(Setup) /\ \A o \in Ords : WF_vars(Scramble(o))
             /\ WF_vars(Reconcile(<<>>)) /\ WF_vars(SyncSetCache) /\ WF_vars(SyncPodCache) /\ WF_vars(Unpause)
-            /\ \A o \in Ords : WF_vars(PodRunning(o)) /\ WF_vars(PodReady(o)) /\ WF_vars(FinishTerminating(o))
+            /\ \A o \in Ords : WF_vars(PodRunning(o)) /\ WF_vars(PodReady(o)) /\ WF_vars(FinishTerminating(o)) /\ WF_vars(GCOrphanPod(o))
+            /\ \A k \in 1..4 : WF_vars(GCOrphanRev(k))
 Spec == Init /\ [][Next]_vars /\ Fairness
 \* the excluded case: a pod that can never become Ready and that the controller is not obliged to replace
 Stuck == \E o \in Ords : <>[](api.pods[o].present /\ api.pods[o].phase = "Failed" /\ o \notin DesiredOf(Here))
 Converges == <>[]Converged \/ Stuck
+
+\* C18: after a migration no reconcile adds a revision (the update revision resolves to the built-in one) or takes a pod
+\* of the old set away unless the rollout the built-in controller had begun calls for it; everything ends up adopted
+NoNewRevisionStep(s, t) == Len(t.api.revs) <= Len(s.api.revs)
+PodKeptStep(s, t) == \A o \in Ords :
+   (s.api.pods[o].present /\ ~s.api.pods[o].term /\ s.api.pods[o].phase \notin {"Failed", "Succeeded"}
+      /\ o \in DesiredOf(s) /\ o \in Desired(s.cache.set.replicas, s.cache.set.slots)
+      /\ s.cache.pods[o] = s.api.pods[o] /\ s.cache.set.tmpl = s.api.set.tmpl
+      /\ TmplOfRevS(s, s.api.pods[o].rev) = s.api.set.tmpl)
+      => (t.api.pods[o].present /\ ~t.api.pods[o].term /\ t.api.pods[o].uid = s.api.pods[o].uid)
+MigrationSafe == [][ last'.act = "Reconcile" => (NoNewRevisionStep(Here, [api |-> api', cache |-> cache'])
+                                                  /\ PodKeptStep(Here, [api |-> api', cache |-> cache'])) ]_vars
+AllAdoptedS(s) == /\ \A k \in 1..Len(s.api.revs) : s.api.revs[k].owner = "self"
+                  /\ \A o \in Ords : s.api.pods[o].present => s.api.pods[o].owner = "self"
+MigrationCompletes == <>[](Converged /\ AllAdoptedS(Here)) \/ Stuck
 
 View == <<api, cache, budget, lvl>>
 =======================================================================================
